@@ -233,8 +233,11 @@ pub fn run(out: &mut impl Write, seed: u64, cases: usize, replay: &str) {
         // replies
         let rs = match r.below(3) {
             0 => {
-                let n4 = r.pick(&[0usize, 1, 2, 50]);
-                let n6 = r.pick(&[0usize, 1, 3]);
+                // every fifth reply is a long one: list lengths around the powers of two and the multiples of common
+                // scratch-buffer sizes (2048 / 6 = 341, 2048 / 18 = 113, 4096 / 18 = 227, ...), both families
+                let long = r.chance(20);
+                let n4 = if long { r.pick(&[113usize, 114, 170, 171, 341, 342, 343, 682, 683, 700]) } else { r.pick(&[0usize, 1, 2, 50]) };
+                let n6 = if long { r.pick(&[0usize, 56, 57, 113, 114, 115, 227, 228, 341, 342, 400]) } else { r.pick(&[0usize, 1, 3]) };
                 Response::Announce(AnnounceResponse {
                     complete: cnt(&mut r), incomplete: cnt(&mut r), announce_interval: r.pick(&[0usize, 120, 1800]),
                     peers: ResponsePeerListV4((0..n4).map(|_| ResponsePeer { ip_address: Ipv4Addr::from(r.next() as u32), port: r.next() as u16 }).collect()),
